@@ -197,7 +197,9 @@ def run(ctx):
                     if isinstance(n, ast.Name) and n.id not in tainted:
                         tainted.add(n.id)
                         changed = True
-    r4.check(len(tainted) >= 3 and bool(copies), "Question.__init__:aliases", f"aliases of the type table identified {sorted(tainted)}; copies {sorted(copies)}", qi.loc())
+    # (which local is an alias and which a copy is an implementation detail: the decision is the evaluated merge below -
+    #  the row's value replaces the default, the other defaults stay, the next question starts from pristine defaults and
+    #  the shared table comes out unchanged.  Only direct stores through a recognised alias are reported structurally.)
     bad = []
     for kind, tgt, node in writes_in(qi.node):
         if kind == "augname":
@@ -205,16 +207,10 @@ def run(ctx):
         base = tgt
         while isinstance(base, ast.Subscript):
             base = base.value
-        if norm(base) in tainted and not (kind == "store" and norm(tgt) == "self._qtd_defaults"):
+        if norm(base) in tainted and norm(base) not in copies and kind == "store" and isinstance(tgt, ast.Subscript) and not norm(tgt).startswith("self."):
             bad.append(node)
-    r4.check(not bad, "Question.__init__:writes", "no store or mutator call goes through an alias of the shared type table", qi.loc(),
-             why_fail=f"{[norm(b)[:50] for b in bad]}")
-    kw_writes = [x for x in walk_own(qi.node) if isinstance(x, ast.Assign) and norm(x.targets[0]) == "kwargs[k]"]
-    r4.check(bool(kw_writes) and all(norm(x.value) in copies or norm(x.value) == "v" for x in kw_writes), "Question.__init__:merge",
-             "the merged dict handed to the element is the copy (scalars are immutable)", qi.loc())
-    upd = [c for c in walk_own(qi.node) if isinstance(c, ast.Call) and call_name(c) == "update"]
-    r4.check(bool(upd) and all(norm(c.func.value) in copies for c in upd) and all(norm(c.args[0]) == "kwargs[k]" for c in upd), "Question.__init__:precedence",
-             "row values are merged over (after) the type defaults", qi.loc())
+    r4.check(not bad, "Question.__init__:writes", "no subscript store goes through an alias of the shared type table", qi.loc(),
+             why_fail=f"{[norm(b_)[:50] for b_ in bad]}")
     # the merge itself, for every type of the table and every key its defaults define: a value written on the row
     # REPLACES the default of that key (it is not combined with it), untouched defaults stay, the table is not written
     from ..interp import ClassVal as _CV
@@ -273,9 +269,6 @@ def run(ctx):
         if s == "bind":
             r5.check(got.get((c, p)) == k, f"bind wiring {c}:{p}", f"-> bind/@{k}", w2j.loc(), why_fail=f"got {got.get((c, p))}")
     pr = ctx.func("pyxform.xls2json:process_range_question_type", "C05.R5")
-    dec = [c for c in walk_own(pr.node) if isinstance(c, ast.Call) and call_name(c) == "update" and "decimal" in norm(c)]
-    r5.check(len(dec) == 1 and any("has_float" in t for t in guard_texts(dec[0], stop=pr.node)) and const_str(ctx, pr.module, dec[0].args[0]) == (True, {"type": "decimal"}),
-             "range:decimal", "a range with a fractional start/end/step gets bind type decimal (else the table's int)", pr.loc())
     # every subset / order / typing of the three range parameters: decimal as soon as one is fractional, and the
     # control receives start, end, step with the documented defaults
     import itertools as _it
